@@ -82,6 +82,7 @@ def c11(rep, tier, seed):
     cl = ("cardinality", "errclass", "rows_inner", "rows_left", "rows_full")
     suite_join.gen(rep, tier, '{"inner","left","full"}', suite_join.ALL_EXPECTS, cl)
     suite_join.trace(rep, tier, seed, ("cardinality", "errclass"), hashseed=seed % 1000)
+    suite_vec.forms(rep, ("form_join",))      # "when the expectation holds the result is the plain join": the same table under every expect word
     suite_repo.validate(rep, {"join"}, ("cardinality", "errclass"))
     suite_heap.gen(rep, tier, "obst4", ("obs_join",))
 
@@ -161,7 +162,7 @@ def c02(rep, tier, seed):
     suite_heap.mc(rep, tier, ["tables"])
     suite_heap.devs(rep, ["RaggedAccepted"])
     suite_heap.gen(rep, tier, "tables2deep", cl)        # incl. zero-length vectors and zero-row tables
-    suite_heap.gen(rep, tier, "obst2", ("obs_iter",))   # rows by index / iteration / NESTED iteration after any history
+    suite_heap.gen(rep, tier, "obst2", ("obs_iter", "obs_select"))   # rows by index / iteration / NESTED iteration, selections, T, >> after any write history
     if tier != "quick":
         suite_heap.gen(rep, tier, "tables", cl)
     suite_heap.trace(rep, tier, seed, cl)
